@@ -72,6 +72,12 @@ Proof. unfold dl_new. apply shrinks_bind; [apply shrinks_sys_now|]. intros a. sh
 Lemma shrinks_dl_tick d : shrinks (dl_tick (X:=ext) d).
 Proof. unfold dl_tick. apply shrinks_bind; [apply shrinks_sys_now|]. intros a. sh. Qed.
 
+Lemma shrinks_set_timeout k T : shrinks (tls_set_timeout k T).
+Proof.
+  unfold tls_set_timeout. apply shrinks_bind; [sh|]. intros _.
+  destruct (0 <? T); [|sh]. apply shrinks_bind; [apply shrinks_sys_now|]. intros now. sh.
+Qed.
+
 Lemma shrinks_send_now fd len : shrinks (send_now (X:=ext) fd len).
 Proof.
   unfold send_now. apply shrinks_bind; [apply shrinks_sys_send|]. intros [sent err].
@@ -316,7 +322,7 @@ Theorem tls_send_complete : forall k size T (s : os) n s',
 Proof.
   intros k size T s n s' N H. unfold tls_send in H.
   apply bind_inv in H. destruct H as [[[] [s1 [Hu H]]]|[r0 [_ [_ Hx]]]]; [|exfalso; exact (recast_not_ok _ _ Hx)].
-  assert (N1 : never_idle (o_script s1)) by (rewrite (still_upd_tls _ _ _ _ _ Hu); exact N).
+  assert (N1 : never_idle (o_script s1)) by exact (never_idle_suffix _ _ (shrinks_set_timeout _ _ _ _ _ Hu) N).
   unfold tls_write in H.
   apply bind_inv in H. destruct H as [[ok [s2 [Hl H]]]|[r0 [_ [_ Hx]]]]; [|exfalso; exact (recast_not_ok _ _ Hx)].
   destruct ok.
